@@ -4,7 +4,8 @@ PROP = {
     "generated": ["TimeoutConsts"],
     "lean_modules": ["SwimVerif.Model.TimeoutCoord", "SwimVerif.Proofs.TimeoutCoord",
                      "SwimVerif.Generated.TimeoutConsts", "SwimVerif.Model.InactivityRt",
-                     "SwimVerif.Proofs.InactivityRt", "SwimVerif.Model.CoordThreads", "SwimVerif.Model.InactivityDl"],
+                     "SwimVerif.Proofs.InactivityRt", "SwimVerif.Model.CoordThreads", "SwimVerif.Model.InactivityDl",
+                     "SwimVerif.Proofs.InactivityDl"],
     "engines": [
         {"name": "coord-random", "crate": "core", "bin": "sv-c17", "machine": "c17",
          "features": [], "cases": {"quick": 6000, "thorough": 600000}, "min_shard": 1000},
@@ -49,7 +50,7 @@ PROP = {
                   "covered by the theorem) and multi-threaded by coord-threads (monitor only). 'Stops only by the "
                   "unanimous vote' is false of the agent runtime (C17-N1: no remotes => the write task stops it alone); "
                   "the liveness statement of the runtime model is open (C17_rt_quiet_stops_open) and the downlink "
-                  "runtime model has no theorems yet.",
+                  "runtime model has safety theorems only (its timers are not in the theorems).",
     "trusted_base": COMMON_TRUST + [
         "modelled, not verified: AtomicU8 (single-location total order), futures::task::AtomicWaker",
         "tokio's paused clock (timers fire in deadline order at their exact instants); the harness's bookkeeping of "
